@@ -11,7 +11,7 @@ FUNCTIONS = ["evmap_io_add_", "evmap_io_del_", "evmap_make_space", "event_change
              "select_resize", "select_dispatch"]
 BOUNDS = ("3 I/O events on 2 fds (ev0, ev1 on fd A; ev2 on fd B), interest masks symbolic non-empty subsets of "
           "{EV_READ, EV_WRITE, EV_CLOSED} (select: {EV_READ, EV_WRITE}), EV_ET symbolic per fd (epoll), EV_PERSIST symbolic; "
-          "histories = ALL sequences of 3 (quick) / 4 (thorough) solver-chosen steps from {add(ev_i), del(ev_i), close+reopen(fd_j), wait} followed by a wait, "
+          "histories = ALL sequences of 3 (quick) / 3, 4 and 5 (thorough) solver-chosen steps from {add(ev_i), del(ev_i), close+reopen(fd_j), wait} followed by a wait, "
           "decided in one query per back end, plus fixed deeper shapes (up to 10 steps, two intermediate waits, close+reopen between del and re-add); "
           "each history runs after a concrete warm-up prefix (add+del of an EV_READ event per fd, one wait) "
           "so tables exist with concrete sizes ('cold' obligations repeat add-only/add-del shapes from the freshly initialised back end); "
@@ -104,7 +104,8 @@ def obligations(tier):
             obs.append(sym(bn, b, 3))
         else:
             obs.append(sym(bn, b, 3))
-            obs.append(sym(bn, b, 4, timeout=1800, mem_gb=12))
+            obs.append(sym(bn, b, 4, timeout=1800, mem_gb=10))
+            obs.append(sym(bn, b, 5, timeout=2400, mem_gb=14))
         # deeper close+reopen histories (changelist: pending del+add across a reopen -> MOD/ENOENT -> ADD retry, DEL/ENOENT tolerated)
         if closes:
             for seq in (["ADD(0)", "WAIT", "DEL(0)", "CLOSE(0)", "ADD(1)"], ["ADD(0)", "WAIT", "CLOSE(0)", "DEL(0)", "ADD(0)"],
